@@ -140,7 +140,9 @@ Inductive binding := Post | Redirect | Artifact | Soap | Paos.
    no endpoint of the SP, or no attribute *)
 Inductive destination := DPost | DRedirect | DElsewhere | DAbsent.
 
-Record delivery := { via : binding; dest : destination; resp : input }.
+(* sealed: which of the Response's assertions (by position, in document order) arrive as
+   EncryptedAssertion for the receiver's key; a missing flag means "in clear" *)
+Record delivery := { via : binding; dest : destination; sealed : list bool; resp : input }.
 
 Definition asynchop (b : binding) : bool := match b with Soap | Paos => false | _ => true end.
 Definition unravels (b : binding) : bool := match b with Paos => false | _ => true end.
@@ -177,8 +179,131 @@ Definition accept_back_channel (x : input) : verdict :=
   | _ => NoId
   end.
 
-Definition receive (y : delivery) : verdict :=
+(* the decision when every assertion is sent in clear ([accept] is what C09 composes) *)
+Definition receive_plain (y : delivery) : verdict :=
   if negb (unravels (via y)) then NoId else
   if asynchop (via y) then
     if destination_ok (via y) (dest y) then accept (resp y) else NoId
   else accept_back_channel (resp y).
+
+(* ------------------------------------------------------------------------------------------
+   Encrypted assertions.  What AuthnResponse.loads() does (valid_instance, the outstanding lookup and
+   check_subject_confirmation_in_response_to) sees the assertions sent in clear only.  parse_assertion:
+   "n_assertions != 1 and n_assertions_enc != 1" raises InvalidAssertion; then _assertion() runs on every
+   clear assertion in document order, then on every decrypted one, came_from being threaded through;
+   each needs exactly one AuthnStatement, a Subject, at least one usable confirmation and (unless
+   unsolicited responses are allowed) came_from.
+   Three states of the code ([rev]):
+   V0 = the pinned snapshot (finding C06-F2: nothing looks at the confirmations of a decrypted assertion);
+   V1 = with b84752ad: _bearer_confirmed, when the Response answers an outstanding request, does not use a
+        confirmation whose data does not answer the same request (return False => skipped; the next one is
+        tried) (finding C06-F3: [stray, answering] is accepted encrypted, refused in clear);
+   V2 = with e76039c1 as well (the code as it is now): get_subject repeats the test of loads() for the
+        assertion it works on and raises UnsolicitedResponse. *)
+Inductive rev := V0 | V1 | V2.
+Definition skips (r : rev) : bool := match r with V0 => false | _ => true end.
+Definition strict (r : rev) : bool := match r with V2 => true | _ => false end.
+Fixpoint split_sealed (fl : list bool) (l : list assertion_in) : list assertion_in * list assertion_in :=
+  match l with
+  | [] => ([], [])
+  | a :: r => let pe := split_sealed (tl fl) r in
+              if hd false fl then (fst pe, a :: snd pe) else (a :: fst pe, snd pe)
+  end.
+
+Definition with_assertions (x : input) (l : list assertion_in) : input :=
+  {| allow_unsolicited := allow_unsolicited x; outstanding := outstanding x; irt := irt x; version := version x;
+     status_top := status_top x; status_second := status_second x; assertions := l |}.
+
+(* "self.in_response_to in self.outstanding_queries" *)
+Definition answered (x : input) : option string :=
+  match irt x with
+  | Some i => match lookup i (outstanding x) with Some _ => Some i | None => None end
+  | None => None
+  end.
+
+Definition answers (i : string) (d : option string) : bool := opt_eqb String.eqb d (Some i).
+
+Fixpoint confirmations_f (fixed : bool) (x : input) (cf : option string) (kept : nat) (scs : list scd)
+  : option (option string * nat) :=
+  match scs with
+  | [] => Some (cf, kept)
+  | NoData :: r => confirmations_f fixed x cf kept r
+  | Data d :: r =>
+      if fixed && match answered x with Some i => negb (answers i d) | None => false end
+      then confirmations_f fixed x cf kept r else
+      match cf, d with
+      | None, Some j =>
+          if is_empty j then confirmations_f fixed x cf (S kept) r else
+          match lookup j (outstanding x) with
+          | Some c => confirmations_f fixed x (Some c) (S kept) r
+          | None => if allow_unsolicited x then confirmations_f fixed x cf (S kept) r else None
+          end
+      | _, _ => confirmations_f fixed x cf (S kept) r
+      end
+  end.
+
+(* _assertion on one assertion: None = an exception, Some = the came_from state afterwards *)
+Definition one_assertion (r : rev) (x : input) (cf : option string) (a : assertion_in) : option (option string) :=
+  if negb (n_authn a =? 1)%nat then None else
+  match subject a with
+  | None => None
+  | Some scs =>
+      if strict r && match answered x with Some i => negb (sc_all_match i scs) | None => false end then None else
+      match confirmations_f (skips r) x cf 0 scs with
+      | None => None
+      | Some (cf', kept) =>
+          if (kept =? 0)%nat then None else
+          if allow_unsolicited x then Some cf' else
+          match cf' with None => None | Some _ => Some cf' end
+      end
+  end.
+
+Fixpoint all_assertions (r : rev) (x : input) (cf : option string) (l : list assertion_in) : option (option string) :=
+  match l with
+  | [] => Some cf
+  | a :: l' => match one_assertion r x cf a with
+               | None => None
+               | Some cf' => all_assertions r x cf' l'
+               end
+  end.
+
+Definition count_ok (plain enc : list assertion_in) : bool :=
+  (length plain =? 1)%nat || (length enc =? 1)%nat.
+
+Definition accept_sealed (fixed : rev) (fl : list bool) (x : input) : verdict :=
+  let plain := fst (split_sealed fl (assertions x)) in
+  let enc := snd (split_sealed fl (assertions x)) in
+  if instance_invalid (with_assertions x plain) then NoId else
+  match loads (with_assertions x plain) with
+  | None => NoId
+  | Some cf =>
+      if negb (version_ok (version x)) then NoId else
+      if negb (String.eqb (status_top x) STATUS_SUCCESS) then StatusErr (status_class (status_second x)) else
+      if negb (count_ok plain enc) then NoId else
+      match all_assertions fixed x cf (plain ++ enc) with
+      | None => NoId
+      | Some cf' => Identity cf'
+      end
+  end.
+
+Definition back_channel_assertion (a : assertion_in) : bool :=
+  (n_authn a =? 1)%nat && match subject a with None => false | Some scs => negb (count_data scs =? 0)%nat end.
+
+Definition accept_back_channel_sealed (fl : list bool) (x : input) : verdict :=
+  let plain := fst (split_sealed fl (assertions x)) in
+  let enc := snd (split_sealed fl (assertions x)) in
+  if instance_invalid (with_assertions x plain) then NoId else
+  if negb (version_ok (version x)) then NoId else
+  if negb (String.eqb (status_top x) STATUS_SUCCESS) then StatusErr (status_class (status_second x)) else
+  if negb (count_ok plain enc) then NoId else
+  if forallb back_channel_assertion (plain ++ enc) then Identity None else NoId.
+
+Definition receive_f (fixed : rev) (y : delivery) : verdict :=
+  if negb (unravels (via y)) then NoId else
+  if asynchop (via y) then
+    if destination_ok (via y) (dest y) then accept_sealed fixed (sealed y) (resp y) else NoId
+  else accept_back_channel_sealed (sealed y) (resp y).
+
+Definition receive := receive_f V2.       (* the code as it is now *)
+Definition receive_v1 := receive_f V1.    (* after b84752ad, before e76039c1: finding C06-F3 *)
+Definition receive_v0 := receive_f V0.    (* the pinned snapshot: finding C06-F2 *)
